@@ -38,7 +38,10 @@ def fit_len(n, m):
 def run_impl(c, ignore):
     from skchange.anomaly_detectors import CAPA, MVCAPA
     p, n = len(c["ctabs"]), c["n"]
-    X = pd.DataFrame(np.zeros((n, p)))
+    # the scored frame carries row labels other than 0..n-1 in two cases out of three ("the cumulative score reported at each TIME"): the published scores must be
+    # labelled by the frame that is scored; positions (predict) are what the table savings read
+    idx = [None, pd.RangeIndex(50, 50 + n), pd.date_range("2022-01-03", periods=n, freq="h")][(n + c["m"] + len(c["ctabs"])) % 3]
+    X = pd.DataFrame(np.zeros((n, p)), index=idx)
     if c["det"] == "CAPA":
         d = CAPA(collective_saving=ts.TableSaving(c["ctabs"]), point_saving=ts.TableSaving(c["ptabs"]),
                  min_segment_length=c["m"], max_segment_length=c["M"], ignore_point_anomalies=ignore).fit(pd.DataFrame(np.zeros((fit_len(len(X), c['m']), X.shape[1]))))
@@ -48,7 +51,10 @@ def run_impl(c, ignore):
         d = MVCAPA(collective_saving=ts.TableSaving(c["ctabs"]), point_saving=ts.TableSaving(c["ptabs"]),
                    collective_penalty=pen_callable(c["ac"], c["bc"]), point_penalty=pen_callable(c["ap"], c["bp"]),
                    min_segment_length=c["m"], max_segment_length=c["M"], ignore_point_anomalies=ignore).fit(pd.DataFrame(np.zeros((fit_len(len(X), c['m']), X.shape[1]))))
-    scores = d.transform_scores(X).to_numpy()
+    scores_frame = d.transform_scores(X)
+    if not scores_frame.index.equals(X.index):
+        raise RuntimeError(f"the published cumulative scores are labelled {list(scores_frame.index[:3])}.. instead of the row labels {list(X.index[:3])}.. of the scored frame")
+    scores = scores_frame.to_numpy()
     y = d.predict(X)
     iv = y["ilocs"].array
     if str(iv.closed) != "left":
